@@ -41,6 +41,12 @@ ASSUMPTIONS = [
     'bytes >= 0x80 are passed through unvalidated in both directions (RapidJSON without kParseValidateEncodingFlag): '
     'output is UTF-8 only if the strings are; the Python voter reads such texts as latin-1',
     'doubles with a fractional part are compared between implementation and Python only (the model abstracts them)',
+    'theorems: parse_render / parse_render_ws / concat_docs / truncation_errors_partial / roundtrip_events need '
+    'printable leaves (int64 integers, integer-valued doubles up to 2^53, byte strings); tojson_value holds for every '
+    'valid layout whose uint64 items are below 2^63 (the known finding c15-uint64-wraps is exactly the excluded case) '
+    'and is stated up to the documented rendering jv (tuples as objects keyed 0,1,..; nan/inf as the chosen strings); '
+    'complex numbers, pretty printing and maxdecimals are outside the Rocq model (checked against Python only); '
+    'the composition with the ArrayBuilder model (C14) is checked by differential testing only, not proved',
     'error messages are not compared; the incomplete/invalid split of do_parse is reported as a statistic only',
     'src/python/*.cpp (pybind11 glue of ak.to_json / ak.from_json) and from_iter itself cannot be built here: '
     'from_iter(json.loads(text)) is represented by awkward::ArrayBuilder driven with the event walk of the parsed value',
